@@ -99,10 +99,16 @@ func VerifHarness_C16_Step3() { c16Step(3) }
 func c16Views(n int) { c16ViewsOn(c16Entries(n)) }
 
 func c16ViewsOn(entries []SearchEntry) {
-	n := len(entries)
 	sh := NewSearchHistory("/nowhere", 100)
 	sh.Entries = entries
-	limit := verifIntRange("limit", 0, n+1)
+	c16CheckViews(sh)
+}
+
+// c16CheckViews: the three views of an instance agree with the entries it holds now
+func c16CheckViews(sh *SearchHistory) { c16CheckViewsL(sh, verifIntRange("limit", 0, len(sh.Entries)+1)) }
+
+func c16CheckViewsL(sh *SearchHistory, limit int) {
+	n := len(sh.Entries)
 	eff := limit
 	if eff <= 0 {
 		eff = 10
@@ -279,4 +285,48 @@ func VerifHarness_C16_LongQueryRepeat() {
 		verifReach("roundtrip")
 	}
 	verifReach("stepped")
+}
+
+// the views agree with the entries held *now*: views are taken, then the instance goes through
+// one more operation (a recorded search, a clear, a load of a missing / empty / damaged /
+// well-formed / half-decodable file, a save), then the views are taken again
+func VerifHarness_C16_ViewsAcrossOps() {
+	path := verifFSRoot() + "/state/history.json"
+	abc := []string{"a", "b", "c"}
+	stamp := int64(0)
+	mk := func(name string, n int) []SearchEntry {
+		var es []SearchEntry
+		for k := 0; k < n; k++ {
+			stamp++
+			es = append(es, SearchEntry{Query: abc[verifIntRange(name, 0, 2)], Timestamp: time.Unix(1700000000+60*stamp, 0), ResultsCount: 1})
+		}
+		return es
+	}
+	sh := NewSearchHistory(path, 10)
+	sh.Entries = mk("held", verifIntRange("n", 1, 2))
+	c16CheckViewsL(sh, 0)
+	switch verifIntRange("op", 0, 7) {
+	case 0:
+		sh.AddEntry(abc[verifIntRange("added", 0, 2)], 2, "", time.Millisecond)
+	case 1:
+		_ = sh.Clear()
+	case 2: // missing file
+		_ = sh.Load()
+	case 3:
+		verifFSPutBytes(path, nil)
+		_ = sh.Load()
+	case 4:
+		verifFSPutGarbage(path)
+		_ = sh.Load()
+	case 5:
+		verifFSPutDoc(path, "json", &SearchHistory{Entries: mk("stored", verifIntRange("m", 0, 2)), MaxSize: 10})
+		_ = sh.Load()
+	case 6:
+		verifFSPutDocBroken(path, "json", &SearchHistory{Entries: mk("stored", verifIntRange("m", 0, 1)), MaxSize: 10}, "max_size")
+		_ = sh.Load()
+	case 7:
+		_ = sh.Save()
+	}
+	c16CheckViews(sh)
+	verifReach("views")
 }
